@@ -10,6 +10,15 @@ E3 = 'TLC model checking of a TLA+ model generated from the documented tables, w
 
 # pid -> (engine, technique, level text, note, design_ref)
 CHECKS = {
+    'C16': ('E1', E1,
+            'collect_charge on cubes of 1-3 slices with every unit impulse (complete by linearity) and a dense payload for scalar, '
+            'vector and Spectrum efficiencies in 4 units x wavelengths in 4 units; Bayer collection for every square pattern over '
+            '{R,G,B} of size 1 and 2 (84) and a strided/complete set of the 19683 3x3 patterns x images of 1x1..2x2 tiles x oversample '
+            '1..4/6 x flatten, against a per-sub-pixel selection pattern[(i//os)%k][(j//os)%k]; adc on a dyadic frame (negatives, == and '
+            '> capacity, float and int) x 8 gain forms x 3 capacities x 4 dtypes x warn flag against an exact-Fraction model '
+            '(value, dtype, warning iff a pixel exceeds capacity, input untouched) and a monotonicity ladder.',
+            'Trusted: numpy; dyadic inputs make every intermediate exact.',
+            'DESIGN.md section 4 C16'),
     'C14': ('E1+E2', E1 + '; ' + E2 + ' (Spectrum.to sequences)',
             'Complete enumeration of the 7^3 wavelength-unit name triples (all aliases and case variants) and 3^3 flux-unit triples '
             'for composition, identity, round trip and agreement with an independent table; explicit-state search over all sequences '
